@@ -207,6 +207,7 @@ func cmdCheck(mode string, argv []string) int {
 	repo := fs.String("repo", "/repo", "repository")
 	verif := fs.String("verif", "/verif", "verification directory")
 	keep := fs.Bool("keep", false, "keep SMT files")
+	outDir := fs.String("out", "", "directory for evidence/ and replays/ (default: the verification directory)")
 	verbose := fs.Bool("v", false, "verbose")
 	fs.Parse(argv)
 	t0 := time.Now()
@@ -345,7 +346,10 @@ func cmdCheck(mode string, argv []string) int {
 		}
 		return 0
 	}
-	return report(eng, *prop, *tier, seed, *verif, &cfg, obls, covers, funcsUnder, abstracted, calleeContracts, encErrors, undecidedClauses, notes,
+	if *outDir == "" {
+		*outDir = *verif
+	}
+	return report(eng, *prop, *tier, seed, *verif, *outDir, &cfg, obls, covers, funcsUnder, abstracted, calleeContracts, encErrors, undecidedClauses, notes,
 		loadSecs, encSecs, solveWall, time.Since(t0).Seconds(), *verbose)
 }
 
